@@ -116,8 +116,8 @@ class KmatrixSingleChannelParticle(Particle):
 
         assert self.n_pole > 0
         if self.bw_l is None:
-            decay = self.decay[0]
-            self.bw_l = min(decay.get_l_list())
+            # lowest l over all decays: independent of declaration order
+            self.bw_l = min(d.get_min_l() for d in self.decay)
         if self.m1 is None:
             self.m1 = float(self.decay[0].outs[0].get_mass())
         if self.m2 is None:
